@@ -191,7 +191,9 @@ def hand_enums(meta):
 
     from enum import auto
 
-    ns = {"IntEnum": IntEnum, "Enum": Enum, "meta": meta, "auto": auto}
+    from abc import ABCMeta
+
+    ns = {"IntEnum": IntEnum, "Enum": Enum, "meta": meta, "auto": auto, "ABCMeta": ABCMeta}
     exec(EXOTIC_SRC, ns)
     out.append(("WithLabel", ns["WithLabel"], {0: "STAND", 1: "CHAIR", 2: "FLOOR"}))
     out.append(("WithMethods", ns["WithMethods"], {1: "Low", 5: "High"}))
@@ -202,6 +204,8 @@ def hand_enums(meta):
     out.append(("Auto", ns["Auto"], {1: "First", 2: "Second", 3: "Third"}))
     out.append(("OnIntSubclass", ns["OnIntSubclass"], {1: "Low", 2: "High"}))
     out.append(("OnIntEnumSubclass", ns["OnIntEnumSubclass"], {7: "Seven", 8: "Eight"}))
+    out.append(("OnDerivedMeta", ns["OnDerivedMeta"], {1: "Ping", 2: "Pong"}))
+    out.append(("OnAbcMeta", ns["OnAbcMeta"], {0: "Zero", 5: "Five"}))
     # declarations through the functional API of a member-less base (the branch of the metaclass call that
     # takes names): ordinals are start + position (start defaults to 1), or the values given
     out.append(("Func0", ns["Func0"], {0: "A", 1: "B", 2: "C"}))
@@ -309,6 +313,26 @@ class _Base(IntEnum, metaclass=meta):
 class OnIntEnumSubclass(_Base):
     Seven = 7
     Eight = 8
+
+
+class DerivedMeta(meta):
+    """A project's own metaclass on top of the library's (adds a lookup by label, say)."""
+    def labels(cls):
+        return [m.name.lower() for m in cls]
+
+
+class OnDerivedMeta(IntEnum, metaclass=DerivedMeta):
+    Ping = 1
+    Pong = 2
+
+
+class AbcProtocolMeta(ABCMeta, meta):
+    """The usual way of making an enum implement an abstract interface."""
+
+
+class OnAbcMeta(IntEnum, metaclass=AbcProtocolMeta):
+    Zero = 0
+    Five = 5
 
 
 class FuncBase(IntEnum, metaclass=meta):
